@@ -17,6 +17,32 @@ pub fn run(ctx: &mut Ctx) {
     for case in ctx.cases("meu", 1500, true) {
         ctx.run_case("meu", case, meu_case);
     }
+    // the same with the function's variables spread over up to 200 labels (the builder knows
+    // every label; query / decision sets and partial models span several machine words)
+    for case in ctx.cases("map_wide", 200, true) {
+        ctx.run_case("map_wide", case, |ctx, rng| {
+            let _g = crate::gen::LabelMapGuard::new(crate::gen::random_label_map(7, rng));
+            ctx.count("cases_over_spread_labels", 1);
+            map_case(ctx, rng);
+        });
+    }
+    for case in ctx.cases("meu_wide", 200, true) {
+        ctx.run_case("meu_wide", case, |ctx, rng| {
+            let _g = crate::gen::LabelMapGuard::new(crate::gen::random_label_map(7, rng));
+            ctx.count("cases_over_spread_labels", 1);
+            meu_case(ctx, rng);
+        });
+    }
+}
+
+/// builder configuration: the dense configuration, or (wide) one whose order covers every label
+fn builder_cfg(cfg: &HistCfg, rng: &mut Rng) -> HistCfg {
+    if crate::gen::label_map().is_none() {
+        return cfg.clone();
+    }
+    crate::gen::fit_label_map(cfg.n0);
+    let full = crate::gen::full_label_order(&cfg.order, rng);
+    HistCfg { n0: full.len(), order: full, ..cfg.clone() }
 }
 
 fn random_bdd_cfg(rng: &mut Rng, n: usize) -> HistCfg {
@@ -45,7 +71,7 @@ fn pick_function(n: usize, rng: &mut Rng) -> Tt {
 fn model_of(m: &PartialModel, vars: &[usize]) -> Option<Vec<(usize, bool)>> {
     let mut out = Vec::new();
     for v in vars {
-        match m.get(VarLabel::new(*v as u64)) {
+        match m.get(crate::gen::lab(*v)) {
             Some(b) => out.push((*v, b)),
             None => return None,
         }
@@ -120,20 +146,22 @@ fn map_case(ctx: &mut Ctx, rng: &mut Rng) {
     }
     let info = json!({"function": t.hex(), "order": cfg.order, "query": q,
         "weights": w.iter().map(|(l, h)| json!([l.show(), h.show()])).collect::<Vec<_>>(), "optimum": best.show()});
-    let qlbl: Vec<VarLabel> = q.iter().map(|v| VarLabel::new(*v as u64)).collect();
-    let params = params(&w);
+    let bcfg = builder_cfg(&cfg, rng);
+    let nb = bcfg.n0;
+    let qlbl: Vec<VarLabel> = q.iter().map(|v| crate::gen::lab(*v)).collect();
+    let params = params(&crate::gen::spread_weights(&w, (OReal(Dy::new(1, 1)), OReal(Dy::new(1, 1)))));
     ctx.seen("query_sizes", &format!("{}of{}", k, n));
     let ignored = q.iter().any(|v| !t.depends_on(*v));
     if ignored {
         ctx.count("queries_with_ignored_variable", 1);
     }
-    with_robdd!(cfg, b, {
+    with_robdd!(bcfg, b, {
         let p: BddPtr = bdd_from_tt(b, &t, &cfg.order, 0);
         for which in ["marginal_map", "bb_real"] {
             let (val, model) = if which == "marginal_map" {
-                p.marginal_map(&qlbl, n, &params)
+                p.marginal_map(&qlbl, nb, &params)
             } else {
-                let (v, m) = p.bb(&qlbl, n, &params);
+                let (v, m) = p.bb(&qlbl, nb, &params);
                 (v.0, m)
             };
             ctx.count(which, 1);
@@ -149,7 +177,7 @@ fn map_case(ctx: &mut Ctx, rng: &mut Rng) {
 #[allow(clippy::too_many_arguments)]
 fn check_result(ctx: &mut Ctx, which: &str, info: &Value, value_ok: bool, got: String, attains: Option<bool>, model: &PartialModel, n: usize) {
     let ms: String = (0..n)
-        .map(|v| match model.get(VarLabel::new(v as u64)) {
+        .map(|v| match model.get(crate::gen::lab(v)) {
             Some(true) => '1',
             Some(false) => '0',
             None => '-',
@@ -232,16 +260,18 @@ fn meu_case(ctx: &mut Ctx, rng: &mut Rng) {
     }
     let info = json!({"function": t.hex(), "order": cfg.order, "decisions": dec, "utility_vars": nutil,
         "weights": w.iter().map(|(l, h)| json!([l.show(), h.show()])).collect::<Vec<_>>(), "optimum_eu": best_eu.show()});
-    let dlbl: Vec<VarLabel> = dec.iter().map(|v| VarLabel::new(*v as u64)).collect();
-    let params = params(&w);
+    let bcfg = builder_cfg(&cfg, rng);
+    let nb = bcfg.n0;
+    let dlbl: Vec<VarLabel> = dec.iter().map(|v| crate::gen::lab(*v)).collect();
+    let params = params(&crate::gen::spread_weights(&w, (OEu(Dy::new(1, 1), Dy::int(0)), OEu(Dy::new(1, 1), Dy::int(0)))));
     ctx.seen("decision_counts", &format!("{}of{}", nd, n));
     if nutil > 0 {
         ctx.count("cases_with_utilities", 1);
     }
-    with_robdd!(cfg, b, {
+    with_robdd!(bcfg, b, {
         let p: BddPtr = bdd_from_tt(b, &t, &cfg.order, 0);
         for which in ["meu", "bb_eu"] {
-            let (val, model) = if which == "meu" { p.meu(&dlbl, n, &params) } else { p.bb(&dlbl, n, &params) };
+            let (val, model) = if which == "meu" { p.meu(&dlbl, nb, &params) } else { p.bb(&dlbl, nb, &params) };
             ctx.count(which, 1);
             ctx.case_eval(if t.is_trivial() || nd == 0 { None } else { Some(crate::rng::mix(crate::rng::hash_str(&info.to_string()) ^ crate::rng::hash_str(which))) });
             let attains = model_of(&model, &dec).map(|a| {
